@@ -171,6 +171,19 @@ extern "C" void harness_main() {
     checkIteration(lazy, "powerset-each-once", "powerset-iteration-increasing");
     sym_assert(lazy.B().Contains(other.real) == ref::IsSubsetOrEq(other.want, base.want), "powerset-membership");
     sym_assert(same(lazy.B().Union(eager.B()), *want), "powerset-union-with-itself");
+    // every binary operation with the lazy set on either side and an enumerated set of sets that is NOT a subset of it
+    {
+      const Pair foreign = buildSet(cand, 7u, 0);                                       // {e0,e1,e2}: a subset of base only if base is everything
+      const StructuredData others = Factory::Set({other.real, foreign.real, Factory::SetV({9})});
+      const ref::Value wantOthers = ref::MakeSet({other.want, foreign.want, ref::MakeSet({ref::MakeElem(9)})});
+      sym_assert(same(lazy.B().Union(others.B()), ref::Union(*want, wantOthers)), "lazy-powerset-union-enumerated");
+      sym_assert(same(others.B().Union(lazy.B()), ref::Union(wantOthers, *want)), "enumerated-union-lazy-powerset");
+      sym_assert(lazy.B().Union(others.B()) == others.B().Union(lazy.B()), "union-commutes-with-lazy-operand");
+      sym_assert(same(lazy.B().Intersect(others.B()), ref::Intersect(*want, wantOthers)) && same(others.B().Intersect(lazy.B()), ref::Intersect(wantOthers, *want)), "intersect-with-lazy-powerset");
+      sym_assert(same(lazy.B().Diff(others.B()), ref::Diff(*want, wantOthers)) && same(others.B().Diff(lazy.B()), ref::Diff(wantOthers, *want)), "diff-with-lazy-powerset");
+      sym_assert(same(lazy.B().SymDiff(others.B()), ref::SymDiff(*want, wantOthers)), "symdiff-with-lazy-powerset");
+      sym_assert(others.B().IsSubsetOrEq(lazy.B().Union(others.B()).B()), "operand-is-subset-of-union");
+    }
     sym_assert(same(lazy.B().Reduce(), base.want), "reduce-of-powerset");
   }
   // lazy product
@@ -185,6 +198,13 @@ extern "C" void harness_main() {
     checkIteration(lazy, "product-each-once", "product-iteration-increasing");
     const auto p1 = ref::Projection(*want, {1});
     if (p1.has_value() && ref::Cardinality(other.want) > 0) sym_assert(same(lazy.B().Projection({1}), *p1), "product-projection");
+    {
+      const StructuredData pairs = Factory::Set({Factory::Tuple({Factory::Val(9), Factory::Val(9)}), Factory::Tuple({E0.real, E1.real})});
+      const ref::Value wantPairs = ref::MakeSet({ref::MakeTuple({ref::MakeElem(9), ref::MakeElem(9)}), ref::MakeTuple({E0.want, E1.want})});
+      sym_assert(same(lazy.B().Union(pairs.B()), ref::Union(*want, wantPairs)), "lazy-product-union-enumerated");
+      sym_assert(same(pairs.B().Union(lazy.B()), ref::Union(wantPairs, *want)), "enumerated-union-lazy-product");
+      sym_assert(same(lazy.B().Intersect(pairs.B()), ref::Intersect(*want, wantPairs)) && same(pairs.B().Diff(lazy.B()), ref::Diff(wantPairs, *want)), "intersect-diff-with-lazy-product");
+    }
     StructuredData copy = lazy;
     (void)copy.ModifyB().AddElement(Factory::Tuple({E0.real, E0.real}));
     sym_assert(lazy == eager, "modified-copy-of-lazy-leaves-original");
